@@ -236,8 +236,16 @@ def specs(draw, max_formulas=14, with_arrays=True, with_names=True,
             # lower rank (pycel dereferences a reference only as the result of
             # a whole formula, not inside an expression)
             s2, c2, r2 = draw(st.sampled_from(cells))
-            if draw(st.booleans()):
+            form = draw(st.integers(0, 3))
+            if form == 0:
                 return f'=OFFSET({q(SHEET)}!$A$1,{r2 - 1},{ord(c2) - 65})'
+            if form == 1:
+                # (evaluates the cell itself, through the caller's evaluator)
+                return (f'=CELL("contents",OFFSET({q(SHEET)}!$A$1,{r2 - 1},'
+                        f'{ord(c2) - 65}))')
+            if form == 2:
+                return (f'=INDEX(OFFSET({q(SHEET)}!$A$1,0,0,{r2},'
+                        f'{ord(c2) - 64}),{r2},{ord(c2) - 64})')
             return f'=INDIRECT("{SHEET}!{c2}{r2}")'
         return f'={ref()}-{ref()}'
 
